@@ -9,6 +9,7 @@ uint8_t vf_gv[32];
 int vf_in_prefix;
 uint32_t vf_inputs[VF_NIN];
 uint32_t vf_hookmask;
+uint32_t vf_which;
 uint32_t vf_projmask = 0xffffffffu;
 #ifndef __CPROVER__
 int vf_failed;
